@@ -22,17 +22,20 @@ use crate::common::*;
 use cosmwasm_std::testing::{MockApi, MockStorage};
 use cosmwasm_std::{
     coin, from_json, to_json_binary, Addr, Api, BankMsg, BankQuery, Binary, BlockInfo, Coin, CustomMsg, CustomQuery,
-    DepsMut, Empty, Env, IbcAcknowledgement, IbcChannel, IbcChannelConnectMsg, IbcEndpoint, IbcMsg, IbcOrder,
-    IbcPacket, IbcPacketAckMsg, IbcPacketReceiveMsg, IbcPacketTimeoutMsg, IbcQuery, IbcTimeout, MessageInfo,
-    Querier, Response, StdError, Storage, SubMsg, Timestamp, Uint128,
+    DepsMut, Empty, Env, IbcAcknowledgement, IbcChannel, IbcChannelCloseMsg, IbcChannelConnectMsg, IbcChannelOpenMsg,
+    IbcEndpoint, IbcMsg, IbcOrder, IbcPacket, IbcPacketAckMsg, IbcPacketReceiveMsg, IbcPacketTimeoutMsg, IbcQuery,
+    IbcTimeout, MessageInfo, PortIdResponse, Querier, Response, StdError, Storage, SubMsg, Timestamp, Uint128,
 };
 use cw20::{BalanceResponse, Cw20Coin, Cw20ExecuteMsg, Cw20QueryMsg, Cw20ReceiveMsg};
 use cw20_ics20::amount::Amount;
 use cw20_ics20::contract::{execute, instantiate, migrate, query};
-use cw20_ics20::ibc::{ibc_channel_connect, ibc_packet_ack, ibc_packet_receive, ibc_packet_timeout, reply, Ics20Ack, Ics20Packet};
+use cw20_ics20::ibc::{
+    ibc_channel_close, ibc_channel_connect, ibc_channel_open, ibc_packet_ack, ibc_packet_receive, ibc_packet_timeout, reply,
+    Ics20Ack, Ics20Packet,
+};
 use cw20_ics20::msg::{
-    AllowMsg, AllowedResponse, ChannelResponse, ConfigResponse, ExecuteMsg, InitMsg, ListAllowedResponse, MigrateMsg,
-    QueryMsg, TransferMsg,
+    AllowMsg, AllowedResponse, ChannelResponse, ConfigResponse, ExecuteMsg, InitMsg, ListAllowedResponse,
+    ListChannelsResponse, MigrateMsg, PortResponse, QueryMsg, TransferMsg,
 };
 use cw20_ics20::state::{AllowInfo, ChannelInfo, ChannelState, Config, ADMIN, ALLOW_LIST, CHANNEL_INFO, CHANNEL_STATE, CONFIG};
 use cw20_ics20::ContractError;
@@ -53,6 +56,8 @@ thread_local! {
     static SENT: RefCell<Vec<(String, Binary, Option<u64>)>> = RefCell::new(vec![]);
     /// sub-messages of the handler-level response of the IBC entry points (canonical text incl. gas limit)
     static SUBLOG: RefCell<Vec<String>> = RefCell::new(vec![]);
+    /// what the chain answers to `IbcQuery::PortId` (`None`: the query fails); set by `query port env=…`
+    static PORT: RefCell<Option<String>> = RefCell::new(None);
 }
 
 // ---------------------------------------------------------------- recording Ibc module
@@ -93,7 +98,13 @@ impl Module for RecordingIbc {
         _block: &BlockInfo,
         request: IbcQuery,
     ) -> AnyResult<Binary> {
-        Err(anyhow::anyhow!("unexpected ibc query {request:?}"))
+        match request {
+            IbcQuery::PortId {} => match PORT.with(|p| p.borrow().clone()) {
+                Some(p) => Ok(to_json_binary(&PortIdResponse::new(p))?),
+                None => Err(anyhow::anyhow!("no port bound")),
+            },
+            other => Err(anyhow::anyhow!("unexpected ibc query {other:?}")),
+        }
     }
 
     fn sudo<ExecC, QueryC>(
@@ -190,6 +201,8 @@ type IcsApp = App<
 #[derive(Serialize, Deserialize, Clone, Debug)]
 #[serde(rename_all = "snake_case")]
 pub enum IbcSudo {
+    Open(IbcChannelOpenMsg),
+    Close(IbcChannelCloseMsg),
     Connect(IbcChannelConnectMsg),
     Receive(IbcPacketReceiveMsg),
     Ack(IbcPacketAckMsg),
@@ -233,6 +246,19 @@ fn log_subs(msgs: &[SubMsg]) {
 /// which a malicious packet can produce).
 fn adapter(deps: DepsMut, env: Env, msg: IbcSudo) -> Result<Response, ContractError> {
     match msg {
+        IbcSudo::Open(m) => {
+            // `Ok(None)`: the contract accepts the proposed version as it is
+            // (an answer `Some(version)` would be a deviation from the model: reported as a failing op)
+            match ibc_channel_open(deps, env, m)? {
+                None => Ok(Response::new()),
+                Some(_) => Err(ContractError::Std(StdError::generic_err("harness: unexpected Ibc3ChannelOpenResponse"))),
+            }
+        }
+        IbcSudo::Close(m) => {
+            let r = ibc_channel_close(deps, env, m)?;
+            log_subs(&r.messages);
+            Ok(Response::new().add_submessages(r.messages))
+        }
         IbcSudo::Connect(m) => {
             let r = ibc_channel_connect(deps, env, m)?;
             log_subs(&r.messages);
@@ -336,6 +362,10 @@ const DENOMS: [&str; 2] = ["uatom", "ustake"];
 /// every actor starts with this much of every native denom and every cw20 token (2^66)
 const FUND: u128 = 1u128 << 66;
 const U64MAX: u128 = u64::MAX as u128;
+
+fn render_chan_info(i: &ChannelInfo) -> String {
+    format!("{}|{}|{}|{}", i.id, i.counterparty_endpoint.port_id, i.counterparty_endpoint.channel_id, i.connection_id)
+}
 
 fn counterparty(ch: &str) -> String {
     // channel-N <-> channel-1N
@@ -601,8 +631,20 @@ impl Ics20Scen {
                 None => format!("{a}|?"),
             });
         }
-        let mut out =
-            format!("obs pagediff={} cfg={} gov={} admin={} allow={} pallow={}", pagediff, cfgs, gov, admin, allow.join(","), pallow.join(","));
+        let channels = match self.q::<ListChannelsResponse>(&QueryMsg::ListChannels {}) {
+            Some(l) => l.channels.iter().map(render_chan_info).collect::<Vec<_>>().join(","),
+            None => "?".to_string(),
+        };
+        let mut out = format!(
+            "obs pagediff={} cfg={} gov={} admin={} allow={} pallow={} channels={}",
+            pagediff,
+            cfgs,
+            gov,
+            admin,
+            allow.join(","),
+            pallow.join(","),
+            channels
+        );
         for ch in CHANS {
             let v = match self.channel(ch) {
                 None => "-".to_string(),
@@ -1081,7 +1123,32 @@ impl Scenario for Ics20Scen {
                 3 => ("ics20-1", "-", "unordered"),
                 _ => ("ics20-1", "ics20-1", "unordered"),
             };
-            return format!("ibc connect chan={chan} ver={ver} cver={cver} order={order}");
+            // the other side: mostly the default endpoint, sometimes another port / channel / connection
+            // (a reconnect of a known channel overwrites the stored info)
+            let peer = match rng.below(6) {
+                0 => format!(" cport=otherport cchan=channel-{} conn=connection-{}", 40 + rng.below(3), rng.below(3)),
+                1 => format!(" conn=connection-{}", 1 + rng.below(2)),
+                _ => String::new(),
+            };
+            return match rng.below(8) {
+                // handshake probes that never write: channel open (try / init) and close (init / confirm)
+                0 | 1 => format!("ibc open chan={chan} ver={ver} cver={cver} order={order}{peer}"),
+                2 => format!("ibc close chan={chan} ver=ics20-1 order=unordered init={}", rng.below(2)),
+                _ => format!("ibc connect chan={chan} ver={ver} cver={cver} order={order}{peer}"),
+            };
+        }
+        if r < 14 {
+            return match rng.below(6) {
+                0 => format!("query port env={}", *rng.pick(&["-", "wasm.ics20", "wasm.cosmwasm1contract", "transfer"])),
+                1 => "query list_channels".to_string(),
+                2 => format!("query channel id={}", *rng.pick(&["channel-0", "channel-1", "channel-2", "channel-9"])),
+                3 => "query config".to_string(),
+                4 => "query admin".to_string(),
+                _ => {
+                    let chan = rng.pick(&CHANS);
+                    format!("ibc close chan={chan} ver=ics20-1 order=unordered init={}", rng.below(2))
+                }
+            };
         }
         if r < 18 {
             // governance
@@ -1333,20 +1400,44 @@ impl Scenario for Ics20Scen {
                 let relayer = Addr::unchecked("relayer");
                 let timeout = IbcTimeout::with_timestamp(Timestamp::from_nanos(u64::MAX));
                 let r = match k {
-                    "connect" => {
+                    "connect" | "open" | "close" => {
                         let ch = a.str("chan");
                         let channel = IbcChannel::new(
                             IbcEndpoint { port_id: OUR_PORT.to_string(), channel_id: ch.clone() },
-                            IbcEndpoint { port_id: REMOTE_PORT.to_string(), channel_id: counterparty(&ch) },
+                            IbcEndpoint {
+                                port_id: a.opt("cport").unwrap_or(REMOTE_PORT.to_string()),
+                                channel_id: a.opt("cchan").unwrap_or(counterparty(&ch)),
+                            },
                             if a.str("order") == "ordered" { IbcOrder::Ordered } else { IbcOrder::Unordered },
                             a.str("ver"),
-                            "connection-0",
+                            a.opt("conn").unwrap_or("connection-0".to_string()),
                         );
-                        let m = match a.opt("cver") {
-                            Some(v) => IbcChannelConnectMsg::new_ack(channel, v),
-                            None => IbcChannelConnectMsg::new_confirm(channel),
-                        };
-                        self.tx(false, |app| app.wasm_sudo(c, &IbcSudo::Connect(m)))
+                        match k {
+                            "connect" => {
+                                // with a counterparty version: OpenAck, without: OpenConfirm
+                                let m = match a.opt("cver") {
+                                    Some(v) => IbcChannelConnectMsg::new_ack(channel, v),
+                                    None => IbcChannelConnectMsg::new_confirm(channel),
+                                };
+                                self.tx(false, |app| app.wasm_sudo(c, &IbcSudo::Connect(m)))
+                            }
+                            "open" => {
+                                // with a counterparty version: OpenTry, without: OpenInit
+                                let m = match a.opt("cver") {
+                                    Some(v) => IbcChannelOpenMsg::new_try(channel, v),
+                                    None => IbcChannelOpenMsg::new_init(channel),
+                                };
+                                self.tx(false, |app| app.wasm_sudo(c, &IbcSudo::Open(m)))
+                            }
+                            _ => {
+                                let m = if a.u64("init") == 1 {
+                                    IbcChannelCloseMsg::new_init(channel)
+                                } else {
+                                    IbcChannelCloseMsg::new_confirm(channel)
+                                };
+                                self.tx(false, |app| app.wasm_sudo(c, &IbcSudo::Close(m)))
+                            }
+                        }
                     }
                     "recv" => {
                         let data = if a.get("raw").is_some() {
@@ -1417,6 +1508,35 @@ impl Scenario for Ics20Scen {
                             limit: a.opt_u32("limit"),
                         })
                         .map(|r| r.allow.iter().map(|x| format!("{}|{}", x.contract, opt_str(&x.gas_limit))).collect::<Vec<_>>().join(",")),
+                    "port" => {
+                        // the op line carries the chain's answer to `IbcQuery::PortId`
+                        PORT.with(|p| *p.borrow_mut() = a.opt("env"));
+                        let r = self.q::<PortResponse>(&QueryMsg::Port {}).map(|r| r.port_id);
+                        PORT.with(|p| *p.borrow_mut() = None);
+                        r
+                    }
+                    "list_channels" => self
+                        .q::<ListChannelsResponse>(&QueryMsg::ListChannels {})
+                        .map(|r| r.channels.iter().map(render_chan_info).collect::<Vec<_>>().join(",")),
+                    "channel" => self.q::<ChannelResponse>(&QueryMsg::Channel { id: a.str("id") }).map(|r| {
+                        let es = self.channel(&a.str("id")).unwrap_or_default();
+                        format!(
+                            "{};{}",
+                            render_chan_info(&r.info),
+                            es.iter().map(|(d, o, t)| format!("{d}|{o}|{t}")).collect::<Vec<_>>().join(",")
+                        )
+                    }),
+                    "config" => self.q::<ConfigResponse>(&QueryMsg::Config {}).map(|c| {
+                        format!(
+                            "{}/{}/{}",
+                            c.default_timeout,
+                            opt_str(&c.default_gas_limit),
+                            if c.gov_contract.is_empty() { "-".to_string() } else { c.gov_contract }
+                        )
+                    }),
+                    "admin" => self
+                        .q::<cw_controllers::AdminResponse>(&QueryMsg::Admin {})
+                        .map(|a| a.admin.unwrap_or("-".to_string())),
                     _ => None,
                 };
                 match res {
